@@ -1,5 +1,5 @@
 ------------------------------ MODULE RemoteLink ------------------------------
-(* Two engines A and B connected by their remotes (remote/remote.go,              *)
+(* Engines A, B (and C) connected by their remotes (remote/remote.go,              *)
 (* stream_router.go, stream_writer.go, stream_reader.go), seen from A's side at    *)
 (* the grain of driver operations that are awaited to quiescence:                   *)
 (*                                                                                 *)
@@ -15,6 +15,8 @@
 (*   PeerDown     B's remote is stopped (Stop().Wait()): nothing listens any more,  *)
 (*                A's live connection is lost (-> the writer shuts down as above)   *)
 (*   PeerUp       a fresh engine and remote come up on B's address                  *)
+(*   BurstOther   a burst to a second peer C that is up all the time: one writer    *)
+(*                per address -- what happens to B's stream must not touch C's      *)
 (*   StartTwice / StopTwice   Remote.Start on a running remote, Remote.Stop on a    *)
 (*                stopped one: harmless                                             *)
 (*                                                                                 *)
@@ -24,7 +26,9 @@
 (* router that never drops the entry (regression config: must fail).                *)
 EXTENDS Integers, Sequences, FiniteSets, TLC, Json
 
-CONSTANTS Threads, MaxOps, MaxDown, ForgetOnUnreachable, Export
+CONSTANTS Threads, MaxOps, MaxDown, ForgetOnUnreachable, Export,
+          MaxOther      \* bursts to a second peer C (always up): the router owns one writer per address, what happens to
+                        \* B's must not touch C's and the other way round
 
 VARIABLES bUp,        \* something listens on B's address
           bGen,       \* incarnation of the engine on B's address
@@ -33,20 +37,22 @@ VARIABLES bUp,        \* something listens on B's address
           recv,       \* per thread: the bursts delivered on B, in order of arrival, as <<burst number, B incarnation>>
           dead,       \* bursts whose messages came back as dead letters
           unreach,    \* RemoteUnreachableEvents published on A
-          asked, answered, downs, twice, nops, hist
+          asked, answered, downs, twice, nops, hist,
+          recvc       \* bursts delivered on C, in order of arrival (numbered from 1)
 
-vars == <<bUp, bGen, stream, nburst, recv, dead, unreach, asked, answered, downs, twice, nops, hist>>
+vars == <<bUp, bGen, stream, nburst, recv, dead, unreach, asked, answered, downs, twice, nops, hist, recvc>>
 
 Init ==
   /\ bUp = TRUE /\ bGen = 1 /\ stream = "none"
   /\ nburst = [t \in Threads |-> 0] /\ recv = [t \in Threads |-> <<>>] /\ dead = {}
   /\ unreach = 0 /\ asked = 0 /\ answered = 0 /\ downs = 0 /\ twice = {} /\ nops = 0 /\ hist = <<>>
+  /\ recvc = <<>>
 
 Op(rec) == nops < MaxOps /\ nops' = nops + 1 /\ hist' = Append(hist, rec)
 
 (* what the step leaves behind, for the harness to wait for and compare *)
 Snap(recvN, deadN, unreachN, answeredN, streamN) ==
-  [recv |-> recvN, dead |-> deadN, unreach |-> unreachN, answered |-> answeredN, stream |-> streamN]
+  [recv |-> recvN, dead |-> deadN, unreach |-> unreachN, answered |-> answeredN, stream |-> streamN, recvc |-> recvc]
 
 (* a burst that makes first contact with the peer is a large one: it is still being handed over while the writer connects *)
 Burst(t) ==
@@ -68,13 +74,13 @@ Burst(t) ==
           /\ UNCHANGED recv
           /\ Op([op |-> "burst", t |-> t, big |-> big, k |-> k,
                  after |-> Snap(recv, dead \cup {<<t, k>>}, unreach + 1, answered, IF ForgetOnUnreachable THEN "none" ELSE "stale")])
-  /\ UNCHANGED <<bUp, bGen, asked, answered, downs, twice>>
+  /\ UNCHANGED <<bUp, bGen, asked, answered, downs, twice, recvc>>
 
 Ask(t) ==
   /\ bUp /\ stream # "stale"
   /\ asked' = asked + 1 /\ answered' = answered + 1 /\ stream' = "live"
   /\ Op([op |-> "ask", t |-> t, big |-> FALSE, k |-> asked + 1, after |-> Snap(recv, dead, unreach, answered + 1, "live")])
-  /\ UNCHANGED <<bUp, bGen, nburst, recv, dead, unreach, downs, twice>>
+  /\ UNCHANGED <<bUp, bGen, nburst, recv, dead, unreach, downs, twice, recvc>>
 
 PeerDown ==
   /\ bUp /\ downs < MaxDown
@@ -85,25 +91,34 @@ PeerDown ==
   /\ Op([op |-> "down", t |-> "-", big |-> FALSE, k |-> 0,
          after |-> Snap(recv, dead, IF stream = "live" THEN unreach + 1 ELSE unreach, answered,
                         IF stream = "live" THEN (IF ForgetOnUnreachable THEN "none" ELSE "stale") ELSE stream)])
-  /\ UNCHANGED <<bGen, nburst, recv, dead, asked, answered, twice>>
+  /\ UNCHANGED <<bGen, nburst, recv, dead, asked, answered, twice, recvc>>
 
 PeerUp ==
   /\ ~bUp
   /\ bUp' = TRUE /\ bGen' = bGen + 1
   /\ Op([op |-> "up", t |-> "-", big |-> FALSE, k |-> 0, after |-> Snap(recv, dead, unreach, answered, stream)])
-  /\ UNCHANGED <<stream, nburst, recv, dead, unreach, asked, answered, downs, twice>>
+  /\ UNCHANGED <<stream, nburst, recv, dead, unreach, asked, answered, downs, twice, recvc>>
 
 StartTwice ==
   /\ "start" \notin twice /\ twice' = twice \cup {"start"}
   /\ Op([op |-> "start-twice", t |-> "-", big |-> FALSE, k |-> 0, after |-> Snap(recv, dead, unreach, answered, stream)])
-  /\ UNCHANGED <<bUp, bGen, stream, nburst, recv, dead, unreach, asked, answered, downs>>
+  /\ UNCHANGED <<bUp, bGen, stream, nburst, recv, dead, unreach, asked, answered, downs, recvc>>
 
 StopTwice ==
   /\ ~bUp /\ "stop" \notin twice /\ twice' = twice \cup {"stop"}
   /\ Op([op |-> "stop-twice", t |-> "-", big |-> FALSE, k |-> 0, after |-> Snap(recv, dead, unreach, answered, stream)])
-  /\ UNCHANGED <<bUp, bGen, stream, nburst, recv, dead, unreach, asked, answered, downs>>
+  /\ UNCHANGED <<bUp, bGen, stream, nburst, recv, dead, unreach, asked, answered, downs, recvc>>
+
+(* a burst to the other peer: its writer is C's own; always delivered, whatever state B's stream is in *)
+BurstOther ==
+  /\ Len(recvc) < MaxOther
+  /\ recvc' = Append(recvc, Len(recvc) + 1)
+  /\ Op([op |-> "burstc", t |-> "-", big |-> FALSE, k |-> Len(recvc) + 1,
+         after |-> [Snap(recv, dead, unreach, answered, stream) EXCEPT !.recvc = Append(recvc, Len(recvc) + 1)]])
+  /\ UNCHANGED <<bUp, bGen, stream, nburst, recv, dead, unreach, asked, answered, downs, twice>>
 
 Next == \/ \E t \in Threads : Burst(t)
+        \/ BurstOther
         \/ \E t \in Threads : Ask(t)
         \/ PeerDown \/ PeerUp \/ StartTwice \/ StopTwice
 Spec == Init /\ [][Next]_vars
